@@ -372,7 +372,11 @@ func (p *Prog) tokenNames() map[int64]string {
 // boundedCountingLoop: is the loop headed by hdr a counting loop  for i := a; i < n; i++  (or i <= n, n > i …) whose bound n
 // is loop-invariant — a value, or the len() of a value, defined before the loop?  Such a loop makes at most n-a iterations
 // like a range loop (SSA slice values are immutable headers, so len(x) of an outside x cannot grow inside the loop).
-func boundedCountingLoop(hdr *ssa.BasicBlock) bool {
+func boundedCountingLoop(hdr *ssa.BasicBlock) bool { return countingLoopWith(hdr, true) }
+
+// countingLoopWith: astInvariant also accepts, as a loop-invariant bound, the len() of a field of an AST node loaded
+// inside the loop (the tree is never written after parsing — C04/S5 decides that).
+func countingLoopWith(hdr *ssa.BasicBlock, astInvariant bool) bool {
 	if len(hdr.Instrs) == 0 {
 		return false
 	}
@@ -385,11 +389,21 @@ func boundedCountingLoop(hdr *ssa.BasicBlock) bool {
 		return false
 	}
 	var ctr, bound ssa.Value
+	up := true
+	isHdrPhi := func(v ssa.Value) bool { ph, ok := v.(*ssa.Phi); return ok && ph.Block() == hdr }
 	switch bo.Op {
 	case token.LSS, token.LEQ:
-		ctr, bound = bo.X, bo.Y
+		if isHdrPhi(bo.X) {
+			ctr, bound = bo.X, bo.Y // i < n
+		} else {
+			ctr, bound, up = bo.Y, bo.X, false // n < i: counting down to n
+		}
 	case token.GTR, token.GEQ:
-		ctr, bound = bo.Y, bo.X
+		if isHdrPhi(bo.Y) {
+			ctr, bound = bo.Y, bo.X // n > i
+		} else {
+			ctr, bound, up = bo.X, bo.Y, false // i >= n: counting down to n
+		}
 	default:
 		return false
 	}
@@ -397,7 +411,7 @@ func boundedCountingLoop(hdr *ssa.BasicBlock) bool {
 	if !ok || phi.Block() != hdr {
 		return false
 	}
-	// every edge from inside the loop carries ctr+1
+	// every edge from inside the loop carries ctr+k (counting up) or ctr-k (counting down), k >= 1
 	stepped := false
 	for i, e := range phi.Edges {
 		pred := hdr.Preds[i]
@@ -406,11 +420,14 @@ func boundedCountingLoop(hdr *ssa.BasicBlock) bool {
 			continue
 		}
 		add, ok := e.(*ssa.BinOp)
-		if !ok || add.Op != token.ADD {
+		if !ok || (add.Op != token.ADD && add.Op != token.SUB) {
 			return false
 		}
 		k, isK := constInt(add.Y)
-		if add.X != phi || !isK || k < 1 {
+		if add.Op == token.SUB {
+			k = -k
+		}
+		if add.X != phi || !isK || (up && k < 1) || (!up && k > -1) {
 			return false
 		}
 		stepped = true
@@ -428,8 +445,134 @@ func boundedCountingLoop(hdr *ssa.BasicBlock) bool {
 		}
 		return false
 	}
+	astField := func(v ssa.Value) bool {
+		u, ok := v.(*ssa.UnOp)
+		if !ok || u.Op != token.MUL {
+			return false
+		}
+		fa, ok := u.X.(*ssa.FieldAddr)
+		if !ok {
+			return false
+		}
+		tn, _ := structKey(fa.X.Type(), fa.Field)
+		return strings.HasPrefix(tn, "ast.") && outside(fa.X)
+	}
 	if la := lenArg(bound); la != nil {
-		return outside(la)
+		return outside(la) || (astInvariant && astField(la))
 	}
 	return outside(bound)
+}
+
+var rangeLikeCache = map[*ssa.BasicBlock]*ssa.Phi{}
+var rangeLikeDone = map[*ssa.BasicBlock]bool{}
+
+// rangeLikeCounter: if hdr heads a loop `for k := 0; k < len(xs); k++` (xs defined before the loop, or a field of an AST
+// node, which nothing writes after parsing), the counter φ — such a loop visits xs[0], xs[1], … exactly like `for k :=
+// range xs`, and the abstract machine treats its counter as it treats the hidden counter of a lowered range loop.
+func rangeLikeCounter(hdr *ssa.BasicBlock) *ssa.Phi {
+	if rangeLikeDone[hdr] {
+		return rangeLikeCache[hdr]
+	}
+	rangeLikeDone[hdr] = true
+	if strings.HasPrefix(hdr.Comment, "rangeindex.loop") || len(hdr.Instrs) == 0 {
+		return nil
+	}
+	iff, ok := hdr.Instrs[len(hdr.Instrs)-1].(*ssa.If)
+	if !ok {
+		return nil
+	}
+	bo, ok := iff.Cond.(*ssa.BinOp)
+	if !ok || bo.Op != token.LSS || lenArg(bo.Y) == nil {
+		return nil
+	}
+	phi, ok := bo.X.(*ssa.Phi)
+	if !ok || phi.Block() != hdr || !countingLoopWith(hdr, true) {
+		return nil
+	}
+	for i, e := range phi.Edges {
+		if hdr.Dominates(hdr.Preds[i]) {
+			add, ok := e.(*ssa.BinOp)
+			if !ok || add.Op != token.ADD || add.X != ssa.Value(phi) {
+				return nil
+			}
+			if k, ok := constInt(add.Y); !ok || k != 1 {
+				return nil
+			}
+		} else if k, ok := constInt(e); !ok || k != 0 {
+			return nil
+		}
+	}
+	rangeLikeCache[hdr] = phi
+	return phi
+}
+
+var revRangeCache = map[*ssa.BasicBlock]*ssa.Phi{}
+var revRangeList = map[*ssa.BasicBlock]ssa.Value{}
+var revRangeDone = map[*ssa.BasicBlock]bool{}
+
+// revRangeCounter: if hdr heads a loop `for k := len(xs) - 1; k >= 0; k--` over a list xs defined before the loop, the
+// counter φ and xs — the loop visits xs[len-1], …, xs[0], each once: a range loop run backwards.  The abstract machine
+// treats the counter as a fresh symbolic index per iteration (as it does for range loops), so the loop is summarised
+// instead of being unrolled with an ever longer index expression.
+func revRangeCounter(hdr *ssa.BasicBlock) (*ssa.Phi, ssa.Value) {
+	if revRangeDone[hdr] {
+		return revRangeCache[hdr], revRangeList[hdr]
+	}
+	revRangeDone[hdr] = true
+	if len(hdr.Instrs) == 0 {
+		return nil, nil
+	}
+	iff, ok := hdr.Instrs[len(hdr.Instrs)-1].(*ssa.If)
+	if !ok {
+		return nil, nil
+	}
+	bo, ok := iff.Cond.(*ssa.BinOp)
+	if !ok {
+		return nil, nil
+	}
+	var ctr ssa.Value
+	switch {
+	case bo.Op == token.GEQ && isConstInt(bo.Y, 0), bo.Op == token.GTR && isConstInt(bo.Y, -1):
+		ctr = bo.X
+	case bo.Op == token.LEQ && isConstInt(bo.X, 0), bo.Op == token.LSS && isConstInt(bo.X, -1):
+		ctr = bo.Y
+	default:
+		return nil, nil
+	}
+	phi, ok := ctr.(*ssa.Phi)
+	if !ok || phi.Block() != hdr || len(hdr.Succs) != 2 || !hdr.Dominates(hdr.Succs[0]) {
+		return nil, nil
+	}
+	var list ssa.Value
+	for i, e := range phi.Edges {
+		if hdr.Dominates(hdr.Preds[i]) {
+			sub, ok := e.(*ssa.BinOp)
+			if !ok || sub.Op != token.SUB || sub.X != ssa.Value(phi) || !isConstInt(sub.Y, 1) {
+				return nil, nil
+			}
+			continue
+		}
+		init, ok := e.(*ssa.BinOp)
+		if !ok || init.Op != token.SUB || !isConstInt(init.Y, 1) {
+			return nil, nil
+		}
+		la := lenArg(init.X)
+		if la == nil || (list != nil && list != la) {
+			return nil, nil
+		}
+		if in, isInstr := la.(ssa.Instruction); isInstr && in.Block() != nil && hdr.Dominates(in.Block()) {
+			return nil, nil
+		}
+		list = la
+	}
+	if list == nil {
+		return nil, nil
+	}
+	revRangeCache[hdr], revRangeList[hdr] = phi, list
+	return phi, list
+}
+
+func isConstInt(v ssa.Value, k int64) bool {
+	c, ok := constInt(v)
+	return ok && c == k
 }
